@@ -1206,6 +1206,15 @@ pub fn run() {
       run.violation("service-process-ended", &format!("a service process ended during the run: {:?}", st), json!({"engine":"c18","requests":[]}));
     }
   }
+  if let Some(seq) = all.get(all.len() / 2) {
+    run.sample(json!({"protocol_sequence": seq.iter().map(|o| o.show()).collect::<Vec<_>>()}));
+  }
+  if let Some((si, fi, at)) = cases.get(cases.len() / 2) {
+    run.sample(json!({"fault_case": {"sequence": short[*si].iter().map(|o| o.show()).collect::<Vec<_>>(), "fault": fs[*fi].name, "inserted_at": at}}));
+  }
+  if let Some(s) = samples(thorough).get(77) {
+    run.sample(json!({"echo_value": {"feel": s.feel, "expected_json": s.expected.show(), "class": s.class}}));
+  }
   run.set("states", json!(protocol_sequences + cases.len()));
   run.set("transitions", json!(cnt.requests.load(Ordering::Relaxed)));
   run.set("traces_validated_against_impl", json!(cnt.compared.load(Ordering::Relaxed)));
